@@ -488,7 +488,39 @@ def family_fsfault(run):
     return evals, labels
 
 
-FAMILIES = {"body": family_body, "unserialisable": family_unserialisable, "unencodable": family_unencodable, "fsfault": family_fsfault}
+def family_clash(run):
+    """A backup name that is the input's or the output's own name must be refused before anything is written (stated
+    with C05): were it accepted, saving would write the 're-serialized original' over the original itself, or the output
+    over the backup - the original would be lost although a backup was asked for."""
+    evals, labels = 0, ["family:clash"]
+    keep = run.bak
+    try:
+        for which in ("input", "output"):
+            name = run.inp if which == "input" else run.out
+            if name is None:
+                continue
+            before = run.reset()
+            run.bak = name
+            entered = False
+            try:
+                with run.mutate() as sf:
+                    entered = True
+                    run.apply(sf, run.case["script"])
+            except ValueError as e:
+                if entered:
+                    raise Violation(f"clash: backup name equal to the {which} name was only refused after the block ran: {e}; {run.desc}")
+                after = run.d.snapshot()
+                need(after == before, f"clash: backup name equal to the {which} name refused, but files {ff.diff_names(before, after)} changed; {run.desc}")
+                evals += 1
+                labels.append("clash:" + which + ("+out" if run.out else ""))
+                continue
+            raise Violation(f"clash: backup_filename equal to the {which} name ({name!r}, output {run.out!r}) was not refused with ValueError; files changed: {ff.diff_names(before, run.d.snapshot())}; {run.desc}")
+    finally:
+        run.bak = keep
+    return evals, labels
+
+
+FAMILIES = {"clash": family_clash, "body": family_body, "unserialisable": family_unserialisable, "unencodable": family_unencodable, "fsfault": family_fsfault}
 
 
 def check(case):
@@ -536,7 +568,7 @@ def _grid():
             for out in (False, True):
                 for bak in (False, True):
                     for enc in ff.MAIN_ENCODINGS:
-                        for family in ("body", "unserialisable", "unencodable", "fsfault"):
+                        for family in ("body", "unserialisable", "unencodable", "fsfault") + (("clash",) if not bak else ()):
                             items.append(
                                 {
                                     "family": family, "fs": fs_kind, "suffix": suffix, "out": out, "bak": bak, "pre_out": False, "pre_bak": False,
@@ -559,7 +591,7 @@ def s_case(draw):
     text = draw(ff.s_document(enc, suffix, keyonly=False, stray=False, max_props=4, max_charts=2))
     encs = draw(st.sampled_from([None, None, None, [enc], ["utf-8", enc], list(reversed(ff.MAIN_ENCODINGS)), ["cp932", "cp949", "utf-8", "cp1252"]]))
     return {
-        "family": draw(st.sampled_from(["body", "unserialisable", "unencodable", "fsfault", "fsfault"])),
+        "family": draw(st.sampled_from(["body", "unserialisable", "unencodable", "fsfault", "fsfault"] * 3 + ["clash"])),
         "fs": draw(st.sampled_from(["mem", "native"])),
         "suffix": suffix,
         "out": draw(st.sampled_from([False, False, True, True, "alias"])),
